@@ -47,6 +47,8 @@ WORKLOADS = [
     ('paths', [STATE], ['getopt 0 ' + hx(b"m=0|in='x'|z"), 'getsec 0 ' + hx(b't=one'), 'getopt 0 ' + hx(b'm=1|l'), 'size 0 ' + hx(b'sec|l')], True),
     ('deep-paths', [STATE], ['getsec 0 ' + hx(b'm=0|in=x'), 'getopt 0 ' + hx(b'm=0|in=x|z'), 'getopt 0 ' + hx(b't=one|l'), 'size 0 ' + hx(b'm=0|in=x|z'),
                              'rmsec 0 ' + hx(b'm=0|in=x'), 'setint 0 %s 6 0' % hx(b't=one|a'), 'rmsec 0 ' + hx(b't=one')], True),
+    ('reopen-titled', [STATE, 'parse_buf 0 ' + hx(b't two { a = 2 }\nt three { }\n')],
+     ['parse_buf 0 ' + hx(b't one { a = 9 l = {q} }\n'), 'parse_buf 0 ' + hx(b't two { in z { } }\nt one { }\n')], True),
     ('print', [STATE], ['print 0 0', 'printopt 0 736c'], True),
     ('tilde', ['passwd %s %s' % (hx(b'bob'), hx(b'/home/bob'))], ['tilde ' + hx(b'~bob/x'), 'tilde ' + hx(b'plain'), 'tilde ' + hx(b'~nouser')], True),
     ('validate', [STATE], ['validate 0 %s 0' % hx(b'sec|a'), 'validate2 0 %s 0' % hx(b'm|a'), 'printfunc 0 %s 0' % hx(b'i')], True),
